@@ -40,11 +40,11 @@ Proof. exact gen_wf. Qed.
 Print Assumptions generated_table_well_formed.
 
 (* ---- keywords.hpp declares every keyword with the type of its documented default (finite) *)
-Theorem declared_keyword_types : forall k, k < 22 -> kw_assoc k gen_kwtypes = kw_assoc k doc_kwtypes.
+Theorem declared_keyword_types : forall k, (k < 22)%nat -> kw_assoc k gen_kwtypes = kw_assoc k doc_kwtypes.
 Proof. exact gen_kwtypes_agree. Qed.
 Print Assumptions declared_keyword_types.
 
-Example declared_keyword_types_nonvacuous : kw_assoc 4 gen_kwtypes = Some TIndex.
+Example declared_keyword_types_nonvacuous : kw_assoc 4%nat gen_kwtypes = Some TIndex.
 Proof. reflexivity. Qed.
 
 (* ---- for EVERY request: the outcome is the documented exception of the first violated clause in
